@@ -19,7 +19,7 @@ EXPLANATION += (  # round-3 supplement
     " S5 Value::Transformed and Val<T> carry Send + Sync (read from the trait's associated-type bounds and the impl's predicates)."
 )
 EXPLANATION += (
-    ' S6 (= C15.M7) two list / buffer mutexes that are held together are acquired in an order decided by comparing the addresses of the mutexes themselves, so two threads applying an operation with swapped operands cannot wait for each other.'
+    ' S6 (= C15.M7) two list / buffer mutexes that are held together are acquired in an order decided by comparing the addresses of the mutexes themselves, so two threads applying an operation with swapped operands cannot wait for each other. S7 (= C16.M1) no element address obtained under a list lock is used after the lock was released.'
 )
 ASSUMPTIONS = [
     "rustc's trait solver answers (Send/Sync per field) are the oracle",
@@ -231,9 +231,22 @@ def rule_s6(F):
     return r
 
 
+def rule_s7(F):
+    """Memory safety of concurrent calls: compiled functions on different threads may share a list, so no built-in may read an element
+    through an address it obtained under the list's lock after that lock was released - another thread's push can have moved or
+    freed the storage by then.  Shared with C16.M1 (escape analysis of guard-derived pointers over every body of the crate)."""
+    from . import c16
+    bodies = [b for b in F.all_bodies() if b.mir]
+    r = RuleResult("C12.S7", "no element address obtained under a list's lock is used after the lock was released (concurrent push may move the storage)", floor=6)
+    c16.rule_m1(bodies, r)
+    for v in r.violations:
+        v.rule = "C12.S7"
+    return r
+
+
 def rules(ctx):
     F = ctx["F"]
-    return [rule_s1(F), rule_s3(F), rule_s5(F), rule_s6(F)]
+    return [rule_s1(F), rule_s3(F), rule_s5(F), rule_s6(F), rule_s7(F)]
 
 
 def thorough_rules(ctx):
